@@ -28,7 +28,8 @@ def strategy(tier):
     # submissions also arrive from another thread (which has its own running loop): the statement is about
     # arrival times, not about who submits
     foreign = B.with_schedule(B.program(nmax=5, kinds=kinds, immediate_only=True, forced_flush=False, fail_p=1,
-                                        with_foreign=1, foreign_ops=('call',), foreign_waits=False), 2)
+                                        with_foreign=1, foreign_ops=('call',), foreign_waits=True,
+                                        foreign_wait_cancel=False), 2)      # wait_from_anywhere(cancel=False) is no forced flush
     # "never running twice at once, never called with an empty set" hold with forced flushes and with every kind of
     # (empty, failing, slow) producer too: for this family only those two clauses are judged
     flush = B.with_schedule(B.program(nmax=6, kinds=('call', 'map', 'map', 'amap', 'await', 'wait', 'wait'), fail_p=2), 1) \
